@@ -216,6 +216,7 @@ pub struct RunOutcome {
     pub state_hash: u64,
     pub fault_log: Vec<String>,
     pub mut_events_per_session: Vec<u64>,
+    pub sweep_hit: Option<(u32, Vec<AtRest>)>,
 }
 
 pub struct RunCtx {
@@ -244,8 +245,13 @@ pub struct RunCtx {
     pub cancelled: RefCell<BTreeSet<u32>>,
     pub active_at_close: std::cell::Cell<Option<usize>>,
     pub order_anomaly_reported: std::cell::Cell<bool>,
+    pub aborted: std::cell::Cell<bool>,
     /// deletion markers appended to blobs that were closed at that moment: (blob, offset)
     pub closed_writes: RefCell<BTreeSet<(usize, u64)>>,
+    /// first failing point of a sweep operation: (op uid, equivalent explicit damage)
+    pub sweep_hit: RefCell<Option<(u32, Vec<AtRest>)>>,
+    /// physically complete records that may or may not be visible: (blob, offset)
+    pub optional_records: RefCell<BTreeSet<(usize, u64)>>,
     /// blobs whose index was loaded into memory by init (the active blob of an eager init)
     pub loaded_at_init: RefCell<BTreeMap<usize, u64>>,
 }
@@ -380,7 +386,10 @@ where
         cancelled: RefCell::new(BTreeSet::new()),
         active_at_close: std::cell::Cell::new(None),
         order_anomaly_reported: std::cell::Cell::new(false),
+        aborted: std::cell::Cell::new(false),
         closed_writes: RefCell::new(BTreeSet::new()),
+        sweep_hit: RefCell::new(None),
+        optional_records: RefCell::new(BTreeSet::new()),
         loaded_at_init: RefCell::new(BTreeMap::new()),
     });
 
@@ -391,7 +400,17 @@ where
         let rt = tokio::runtime::Builder::new_current_thread().enable_time().start_paused(true).build().expect("runtime");
         let local = tokio::task::LocalSet::new();
         let c2 = ctx.clone();
-        let outcome = local.block_on(&rt, async move { crate::session::session_main::<K>(c2, si).await });
+        let outcome = match std::panic::catch_unwind(std::panic::AssertUnwindSafe(|| local.block_on(&rt, async move { crate::session::session_main::<K>(c2, si).await }))) {
+            Ok(o) => o,
+            Err(_) => {
+                let msg = PANICS.with(|p| p.borrow().last().cloned()).unwrap_or_default();
+                let canonical: String = msg.split(" @ ").next().unwrap_or("").chars().take(100).collect();
+                let loc: String = msg.split(" @ ").nth(1).unwrap_or("").to_string();
+                ctx.violate(&["C03", "C06", "C11", "C13", "C14", "C05"], "api-panic", format!("a storage call panicked: {} ({})", canonical, loc.split('/').last().unwrap_or("")), format!("session {}: {}; {}", si, msg, ctx.last_step_note.borrow()));
+                ctx.aborted.set(true);
+                crate::session::SessionOutcome::Dropped
+            }
+        };
         // dropping the LocalSet and the runtime discards every task, lock and pending simulated job
         drop(local);
         drop(rt);
@@ -399,7 +418,7 @@ where
         world.end_session();
         total_sim_ms = world.sim_ms();
         crate::session::after_session(&ctx, si, outcome);
-        if ctx.violations.borrow().len() > 20 {
+        if ctx.violations.borrow().len() > 20 || ctx.aborted.get() {
             break;
         }
     }
@@ -431,6 +450,7 @@ where
         state_hash: ctx.state_hash.get(),
         fault_log: w.fault_log.clone(),
         mut_events_per_session: ctx.mut_events_per_session.borrow().clone(),
+        sweep_hit: ctx.sweep_hit.borrow().clone(),
     };
     drop(w);
     let _ = std::fs::remove_dir_all(&dir);
@@ -520,176 +540,7 @@ where
     K::from(key_bytes(idx, ctx.key_len))
 }
 
-/// Full comparison of every query method with the model, for every key of the key space.
-/// `phase` selects the properties a mismatch is attributed to.
-pub async fn check_all_queries<K>(ctx: &Rc<RunCtx>, storage: &Storage<K>, phase: &str, uid: u32)
-where
-    for<'a> K: Key<'a> + AsRef<K> + 'static,
-{
-    let world = ctx.world.clone();
-    let tag = Some(Tag { client: QUERY_CLIENT, uid });
-    world.set_query_phase(true);
-    let attached = ctx.attached();
-    let plan = ctx.plan.clone();
-    // snapshot of the model (clone of phys: cheap enough for the small histories used here)
-    let phys = world.inner.borrow().phys.clone();
-    let view = View::new(&phys, &attached);
-    let (p_read, p_all): (Vec<&str>, Vec<&str>) = match phase {
-        "step" => (vec!["C01"], vec!["C02"]),
-        "restart" => (vec!["C03", "C01"], vec!["C03", "C02"]),
-        "maintenance" => (vec!["C04", "C01"], vec!["C04", "C02"]),
-        "crash" => (vec!["C06"], vec!["C06"]),
-        "fault" => (vec!["C11"], vec!["C11"]),
-        "cancel" => (vec!["C14"], vec!["C14"]),
-        "quiescent" => (vec!["C08", "C01"], vec!["C08", "C02"]),
-        _ => (vec!["C01"], vec!["C02"]),
-    };
-    let mut state_h = ctx.state_hash.get();
-    // Blob order of the storage (closed blobs in list order, then the active blob) as observed.
-    // The model ranks by blob id; racing blob switches (manual create vs background update) can
-    // leave the list in another order. Mismatches found in such a layout carry a marked cause.
-    let order_ids: Vec<usize> = tagged(&world, tag, storage.records_count_detailed()).await.iter().map(|x| x.0).collect();
-    let order_anomaly = order_ids.windows(2).any(|w| w[0] >= w[1]);
-    if order_anomaly {
-        world.probe("blob_order_differs_from_id_order");
-        if !ctx.order_anomaly_reported.get() {
-            ctx.order_anomaly_reported.set(true);
-            ctx.violate(&["C04"], "blob-order", "blob list order differs from blob id order after force_update_active_blob raced with the creation of an active blob", format!("phase={} observed order (closed..., active) {:?}; rank ties between blobs now resolve differently before and after a restart; {}", phase, order_ids, ctx.last_step_note.borrow()));
-        }
-        // one defect, one report: the id-ranked model does not apply to this layout
-        world.set_query_phase(false);
-        return;
-    }
-    let mark = |c: String| -> String { c };
-    for ki in 0..plan.n_keys {
-        let kb = key_bytes(ki, ctx.key_len);
-        let key: K = K::from(kb.clone());
-        // ---- read
-        let exp = view.read(&kb);
-        state_h = mix(state_h ^ mix_all(&[ki as u64, match &exp { MRead::Found(r) => r.offset ^ ((r.blob as u64) << 40), MRead::Deleted(t) => *t ^ 0xdead, MRead::NotFound => 0 }]));
-        let got = tagged(&world, tag, storage.read(&key)).await;
-        let ok = match (&exp, &got) {
-            (MRead::Found(r), Ok(ReadResult::Found(b))) => r.data == b.as_ref(),
-            (MRead::Deleted(ts), Ok(ReadResult::Deleted(t))) => *ts == Into::<u64>::into(*t),
-            (MRead::NotFound, Ok(ReadResult::NotFound)) => true,
-            _ => false,
-        };
-        if !ok {
-            let cause = match &got {
-                Err(e) => format!("read returned Err({}) expected {}", err_kind(e), exp.class()),
-                Ok(g) => format!("read returned {} expected {}", class_of_read(g), exp.class()),
-            };
-            ctx.violate(&p_read, "read-mismatch", mark(cause), format!("phase={} key={} expected {} got {}; {}", phase, ki, describe_mread(&exp), describe_read(&got), ctx.last_step_note.borrow()));
-        }
-        // ---- contains
-        let got = tagged(&world, tag, storage.contains(&key)).await;
-        let ok = match (&exp, &got) {
-            (MRead::Found(r), Ok(ReadResult::Found(t))) => r.ts == Into::<u64>::into(*t),
-            (MRead::Deleted(ts), Ok(ReadResult::Deleted(t))) => *ts == Into::<u64>::into(*t),
-            (MRead::NotFound, Ok(ReadResult::NotFound)) => true,
-            _ => false,
-        };
-        if !ok {
-            let g = match &got {
-                Ok(ReadResult::Found(t)) => format!("Found({})", t),
-                Ok(ReadResult::Deleted(t)) => format!("Deleted({})", t),
-                Ok(ReadResult::NotFound) => "NotFound".into(),
-                Err(e) => format!("Err({})", err_kind(e)),
-            };
-            let cause = format!("contains returned {} expected {}", g.split('(').next().unwrap_or(""), exp.class());
-            ctx.violate(&p_read, "contains-mismatch", mark(cause), format!("phase={} key={} expected {} got {}; {}", phase, ki, describe_mread(&exp), g, ctx.last_step_note.borrow()));
-        }
-        // ---- read_all_with_deletion_marker
-        let exp_list = view.read_all_with_marker(&kb);
-        let got = tagged(&world, tag, storage.read_all_with_deletion_marker(&key)).await;
-        match got {
-            Err(e) => ctx.violate(&p_all, "readall-marker-mismatch", format!("read_all_with_deletion_marker returned Err({})", err_kind(&e)), format!("phase={} key={}; {}", phase, ki, ctx.last_step_note.borrow())),
-            Ok(entries) => {
-                let got_desc: Vec<(bool, u64)> = entries.iter().map(|e| (e.is_deleted(), e.timestamp().into())).collect();
-                let exp_desc: Vec<(bool, u64)> = exp_list.iter().map(|r| (r.deleted, r.ts)).collect();
-                if got_desc != exp_desc {
-                    let cause = format!("read_all_with_deletion_marker list differs (len {} vs expected {})", got_desc.len(), exp_desc.len());
-                    ctx.violate(&p_all, "readall-marker-mismatch", mark(cause), format!("phase={} key={} expected {:?} got {:?}; {}", phase, ki, exp_desc, got_desc, ctx.last_step_note.borrow()));
-                } else {
-                    // identity of entries through load()
-                    for (e, r) in entries.into_iter().zip(exp_list.iter()) {
-                        let loaded = tagged(&world, tag, e.load()).await;
-                        match loaded {
-                            Ok(rec) => {
-                                let meta_ok = {
-                                    let exp_meta = r.meta_map().unwrap_or_default();
-                                    let mut all = true;
-                                    for (mk, mv) in exp_meta.iter() {
-                                        if rec.meta().get(mk) != Some(mv) {
-                                            all = false;
-                                        }
-                                    }
-                                    all
-                                };
-                                let data = rec.into_data();
-                                if data.as_ref() != r.data.as_slice() || !meta_ok {
-                                    ctx.violate(&p_all, "readall-entry-mismatch", "entry of read_all_with_deletion_marker loads other bytes than the ranked record", format!("phase={} key={} expected blob {} off {} {} got {}", phase, ki, r.blob, r.offset, short(&r.data), short(&data)));
-                                }
-                            }
-                            Err(e) => ctx.violate(&p_all, "readall-entry-mismatch", format!("entry load returned Err({})", err_kind(&e)), format!("phase={} key={} blob {} off {}", phase, ki, r.blob, r.offset)),
-                        }
-                    }
-                }
-            }
-        }
-        // ---- read_all
-        let exp_list = view.read_all(&kb);
-        let got = tagged(&world, tag, storage.read_all(&key)).await;
-        match got {
-            Err(e) => ctx.violate(&p_all, "readall-mismatch", format!("read_all returned Err({})", err_kind(&e)), format!("phase={} key={}", phase, ki)),
-            Ok(entries) => {
-                let got_desc: Vec<(bool, u64)> = entries.iter().map(|e| (e.is_deleted(), e.timestamp().into())).collect();
-                let exp_desc: Vec<(bool, u64)> = exp_list.iter().map(|r| (r.deleted, r.ts)).collect();
-                if got_desc != exp_desc {
-                    ctx.violate(&p_all, "readall-mismatch", mark(format!("read_all list differs (len {} vs expected {})", got_desc.len(), exp_desc.len())), format!("phase={} key={} expected {:?} got {:?}; {}", phase, ki, exp_desc, got_desc, ctx.last_step_note.borrow()));
-                }
-            }
-        }
-        // ---- read_with for each meta value
-        for m in 0..plan.n_metas {
-            let mm = meta_map(m);
-            let exp = view.read_with(&kb, &mm);
-            let meta = meta_of(m);
-            let got = tagged(&world, tag, storage.read_with(&key, &meta)).await;
-            let ok = match (&exp, &got) {
-                (MRead::Found(r), Ok(ReadResult::Found(b))) => r.data == b.as_ref(),
-                (MRead::Deleted(ts), Ok(ReadResult::Deleted(t))) => *ts == Into::<u64>::into(*t),
-                (MRead::NotFound, Ok(ReadResult::NotFound)) => true,
-                _ => false,
-            };
-            if !ok {
-                let cause = match &got {
-                    Err(e) => format!("read_with returned Err({}) expected {}", err_kind(e), exp.class()),
-                    Ok(g) => format!("read_with returned {} expected {}", class_of_read(g), exp.class()),
-                };
-                ctx.violate(&p_all, "readwith-mismatch", mark(cause), format!("phase={} key={} meta={} expected {} got {}; {}", phase, ki, m, describe_mread(&exp), describe_read(&got), ctx.last_step_note.borrow()));
-            }
-        }
-        // ---- filters: no false negative (C10)
-        let stored = view.recs.iter().any(|r| r.key == kb);
-        let cf = tagged(&world, tag, storage.check_filters(&key)).await;
-        if stored && cf == Some(false) {
-            ctx.violate(&["C10"], "filter-false-negative", "check_filters answered Some(false) for a stored key", format!("phase={} key={}; {}", phase, ki, ctx.last_step_note.borrow()));
-        }
-        let cf2 = tagged(&world, tag, BloomProvider::check_filter(storage, &key)).await;
-        if stored && cf2 == pearl::FilterResult::NotContains {
-            ctx.violate(&["C10"], "filter-false-negative", "check_filter answered NotContains for a stored key", format!("phase={} key={}; {}", phase, ki, ctx.last_step_note.borrow()));
-        }
-        if let Some(f) = tagged(&world, tag, BloomProvider::get_filter(storage)).await {
-            use pearl::filter::FilterTrait;
-            if stored && f.contains_fast(&key) == pearl::FilterResult::NotContains {
-                ctx.violate(&["C10"], "filter-false-negative", "get_filter().contains_fast answered NotContains for a stored key", format!("phase={} key={}; {}", phase, ki, ctx.last_step_note.borrow()));
-            }
-        }
-    }
-    ctx.state_hash.set(state_h);
-    world.set_query_phase(false);
-}
+pub use crate::queries::check_all_queries;
 
 pub fn class_of_read<T>(r: &ReadResult<T>) -> &'static str {
     match r {
